@@ -24,11 +24,13 @@ import (
 // identifier from the echo request captured on the connection and injects the
 // scripted frames through Session.Parse.
 
-const c19Rule = "batches of concurrent scenarios; a scenario = 1..8 concurrent Ping/Ping6 calls, each with a script: matching reply at once | matching reply twice | reply with a foreign identifier | echo REQUEST with the ping's identifier | truncated ICMP (Parse error) | matching reply only after the time-out | nothing | send failure (wrong address family). oracle: nil <=> a matching reply was injected before the deadline (1 s time-outs for the positive scripts, 200 ms for the negative ones, only lower bounds on latency); identifiers distinct; no waiter left once every call has returned. non-trivial = scenario with >= 2 concurrent pings and >= 1 non-matching reply; distinct by hash of the scenario"
+const c19Rule = "batches of concurrent scenarios; a scenario = 1..8 concurrent Ping/Ping6 calls, each with a script: matching reply at once | matching reply twice (replies carried in IP headers with DF, options, TOS/identification, traffic class/flow label, with 0 / 5 / 1000 bytes of echo data) | reply with a foreign identifier | echo REQUEST with the ping's identifier | another ICMP type (incl. the other family's reply type) with the identifier at the same offset | truncated ICMP (Parse error) | matching reply only after the time-out | nothing | send failure (wrong address family). oracle: nil <=> a matching reply was injected before the deadline (1 s time-outs for the positive scripts, 200 ms for the negative ones, only lower bounds on latency); identifiers distinct; no waiter left once every call has returned. non-trivial = scenario with >= 2 concurrent pings and >= 1 non-matching reply; distinct by hash of the scenario"
 
 type c19Ping struct {
 	V6     bool   `json:"v6"`
-	Script string `json:"script"` // early twice foreign request truncated late none badfamily
+	Script string `json:"script"` // early twice foreign request othertype truncated late none badfamily
+	Hdr    int    `json:"hdr,omitempty"` // shape of the carrying IP header / echo data of the injected reply (c19Frame)
+	Alt    int    `json:"alt,omitempty"` // othertype: which ICMP type carries the identifier
 }
 
 type c19Scenario struct {
@@ -100,8 +102,11 @@ func c19RunScenario(sc c19Scenario) (res []c19Result, problems []string, inconcl
 		}(i, p)
 	}
 	// feeder: learn identifiers from the captured echo requests and play the scripts
-	inject := func(v6 bool, typ byte, id uint16, cut int) {
+	inject := func(v6 bool, typ byte, id uint16, cut int, hdr ...int) {
 		fb := echoFrame(w, v6, typ, id)
+		if len(hdr) > 0 && hdr[0] > 0 {
+			fb = c19Frame(w, v6, typ, id, hdr[0])
+		}
 		if cut > 0 {
 			fb = fb[:len(fb)-cut]
 		}
@@ -158,10 +163,12 @@ func c19RunScenario(sc c19Scenario) (res []c19Result, problems []string, inconcl
 			}
 			switch p.Script {
 			case "early":
-				inject(p.V6, reply, id, 0)
+				inject(p.V6, reply, id, 0, p.Hdr)
 			case "twice":
-				inject(p.V6, reply, id, 0)
-				inject(p.V6, reply, id, 0)
+				inject(p.V6, reply, id, 0, p.Hdr)
+				inject(p.V6, reply, id, 0, p.Hdr)
+			case "othertype": // not an echo reply of this family, but the identifier sits at the same offset
+				inject(p.V6, c19OtherTypes[p.V6][p.Alt%len(c19OtherTypes[p.V6])], id, 0, p.Hdr)
 			case "foreign":
 				inject(p.V6, reply, id+0x8000, 0)
 				inject(!p.V6, map[bool]byte{true: 129, false: 0}[!p.V6], id+0x8000, 0)
@@ -308,6 +315,46 @@ func indexByte(s string, c byte) int {
 	return -1
 }
 
+// ICMP types that are not the echo reply of the family (true = ICMPv6); the first of each list is the other family's reply type
+var c19OtherTypes = map[bool][]byte{false: {129, 128, 13, 14, 17, 18}, true: {0, 8, 1, 3, 4, 127}}
+
+// c19Frame is echoFrame with a legitimate variation of the carrying header or of the echo data:
+// 1 DF set, 2 IPv4 options (IHL 24) / IPv6 traffic class + flow label, 3 TOS + identification, 4 no echo data, 5 1000 bytes of echo data, 6 DF + options
+func c19Frame(w gen.World, v6 bool, typ byte, id uint16, hdr int) []byte {
+	var rest [4]byte
+	rest[0], rest[1], rest[3] = byte(id>>8), byte(id), 1
+	data := []byte("HELLO")
+	switch hdr {
+	case 4:
+		data = nil
+	case 5:
+		data = make([]byte, 1000)
+		for i := range data {
+			data[i] = byte(i)
+		}
+	}
+	if v6 {
+		src, dst := netip.MustParseAddr("fe80::aa").As16(), w.HostLLA.As16()
+		h := ref.IP6Hdr{PayloadLen: -1, Next: 58, HopLimit: 64, Src: src, Dst: dst}
+		if hdr == 2 || hdr == 3 || hdr == 6 {
+			h.Class, h.Flow = 0xb8, 0xabcde
+		}
+		return ref.Eth(w.HostMAC, w.Clients[0], 0x86dd, ref.IP6(h, ref.ICMP6(src, dst, typ, 0, append(rest[:], data...))))
+	}
+	h := ref.IP4Hdr{TotalLen: -1, TTL: 64, Proto: 1, Checksum: -1, Src: [4]byte{192, 168, 0, 5}, Dst: w.HostIP.As4()}
+	switch hdr {
+	case 1:
+		h.Flags = 2
+	case 2:
+		h.IHL, h.Options = 24, []byte{1, 1, 1, 1}
+	case 3:
+		h.TOS, h.ID = 0xb8, 0x4242
+	case 6:
+		h.Flags, h.IHL, h.Options = 2, 28, []byte{1, 1, 1, 1, 1, 1, 1, 0}
+	}
+	return ref.Eth(w.HostMAC, w.Clients[0], 0x0800, ref.IP4(h, ref.ICMP(typ, 0, rest, data, true)))
+}
+
 func TestC19(t *testing.T) {
 	rec := drv.For("C19", c19Rule)
 	drv.Prop(t, rec, "batches", 6, 150, func(t *rapid.T) c19Batch {
@@ -315,11 +362,11 @@ func TestC19(t *testing.T) {
 		for i := rapid.IntRange(8, 24).Draw(t, "nscenarios"); i > 0; i-- {
 			var sc c19Scenario
 			for k := rapid.IntRange(1, 8).Draw(t, "npings"); k > 0; k-- {
-				script := rapid.SampledFrom([]string{"early", "early", "twice", "foreign", "request", "truncated", "late", "none"}).Draw(t, "script")
+				script := rapid.SampledFrom([]string{"early", "early", "early", "twice", "foreign", "request", "othertype", "othertype", "truncated", "late", "none"}).Draw(t, "script")
 				if rapid.IntRange(0, 19).Draw(t, "bad") == 0 {
 					script = "badfamily"
 				}
-				sc.Pings = append(sc.Pings, c19Ping{V6: rapid.Bool().Draw(t, "v6"), Script: script})
+				sc.Pings = append(sc.Pings, c19Ping{V6: rapid.Bool().Draw(t, "v6"), Script: script, Hdr: rapid.SampledFrom([]int{0, 0, 1, 2, 3, 4, 5, 6}).Draw(t, "hdr"), Alt: rapid.IntRange(0, 5).Draw(t, "alt")})
 			}
 			b.Scenarios = append(b.Scenarios, sc)
 		}
